@@ -55,6 +55,8 @@ def universe(tier):
     A, B, E0 = _idx(0, 1), _idx(1, 2), pd.DatetimeIndex([])
     s_A = pd.Series([1., 2.], A)
     buf, sq = np.array([1, 2, 3]), np.array([[1, 2], [3, 4]])
+    sqO = np.array([[1, 'a'], [None, 4.0]], dtype=object)
+    o3 = np.array([1, 'a', None], dtype=object)
     U = [
         # scalars
         ('None', None), ('True', True), ('0', 0), ('1', 1), ('1.0', 1.0), ('2', 2), ("'a'", 'a'), ("''", ''),
@@ -106,6 +108,8 @@ def universe(tier):
         # int arrays beyond the float mantissa against the float array they round to
         ('arr[2**53,1]i', np.array([2 ** 53, 1])), ('arr[2**53+1,1]i', np.array([2 ** 53 + 1, 1])), ('arr[2.**53,1.]', np.array([2.0 ** 53, 1.0])),
         ('buf[:2]', buf[:2]), ('buf[1:]', buf[1:]), ('buf[::-1][1:]', buf[::-1][1:]), ('sq.T', sq.T), ('[buf[:2]]', [buf[:2]]), ('[buf[1:]]', [buf[1:]]),
+        # OBJECT arrays with one shape and different memory layouts: cells are paired by index, not by where they sit in memory
+        ('sqO', sqO), ('sqO.T', sqO.T), ('sqO F-order', np.asfortranarray(sqO)), ('sqO.T copy', sqO.T.copy()), ('o3[::-1]', o3[::-1]), ('o3', o3), ('o3 reversed copy', o3[::-1].copy()),
     ]
     if tier == 'quick':
         return U
